@@ -46,3 +46,15 @@ Proof.
     cbn [String.eqb Ascii.eqb Bool.eqb]; rewrite Hu, He, Hk; unfold with_diag; destruct (enc_diag E (bmode s) _ ops); repeat split.
 Qed.
 Print Assumptions C07_rejected_ocode_diagnosed.
+
+(* a far pointer operand (seg:off) on a branch mnemonic other than JMP - CALL seg:off, JE seg:off ... - is never turned into
+   code: no ocode is recorded and the diagnostic flag is raised (there is no far ocode but JMP_FAR) *)
+Theorem C07_far_operand_only_on_jmp : forall s name op dt l r0 r,
+  name <> "JMP"%string -> eval_top (env_of s) op = Ev (ESeg dt l (Some r0)) r ->
+  ocodes (do_jcc s name [op]) = ocodes s /\ diag (do_jcc s name [op]) = true.
+Proof.
+  intros s name op dt l r0 r Hn He. unfold do_jcc. rewrite He.
+  apply String.eqb_neq in Hn. rewrite Hn.
+  destruct (if far_dt_ok dt then seg_num l else None); destruct (seg_num r0); split; reflexivity.
+Qed.
+Print Assumptions C07_far_operand_only_on_jmp.
